@@ -16,6 +16,7 @@ import (
 	"go/ast"
 	"go/printer"
 	"go/token"
+	"go/types"
 	"os"
 	"path/filepath"
 	"sort"
@@ -128,7 +129,11 @@ func main() {
 		for _, f := range p.Files {
 			for _, d := range f.Decls {
 				if fd, ok := d.(*ast.FuncDecl); ok {
-					keys = append(keys, normal.Key(fd))
+					k := normal.Key(fd)
+					if fn, ok := p.Info.Defs[fd.Name].(*types.Func); ok {
+						k += "|" + normal.Fingerprint(p.Types, fn)
+					}
+					keys = append(keys, k)
 				}
 			}
 		}
@@ -148,7 +153,7 @@ func main() {
 			fmt.Println("normaliser disabled")
 			return
 		}
-		fmt.Printf("candidates=%v\nexpanded=%v\nremoved=%v\nrounds=%d\n", p.Normal.Candidates, p.Normal.Expanded, p.Normal.Removed, p.Normal.Rounds)
+		fmt.Printf("candidates=%v\nexpanded=%v\nremoved=%v\nrounds=%d\nrenamed=%v\nfailed=%q\n", p.Normal.Candidates, p.Normal.Expanded, p.Normal.Removed, p.Normal.Rounds, p.Normal.Renamed, p.Normal.Failed)
 		for _, s := range p.Normal.Skipped {
 			fmt.Println("skipped:", s)
 		}
